@@ -54,12 +54,19 @@ def main():
                 if c['op'] == 'correlate':
                     call['r'] = rng.choice([0.8, -0.3, 0.5, -0.95, 0.0, 0.123])
                 if c['op'] == 'combine':
-                    call['kind'] = rng.choice(['linear', 'nonlinear'])
+                    call['kind'] = rng.choice(['linear', 'nonlinear'] + (['xor', 'and', 'or'] if len(c['sel']) >= 2 else []))
                 if len(c['sel']) == 1 and c['op'] != 'combine':
                     call['as_list'] = rng.random() < 0.5
                 calls.append(call)
             items.append({'nsource': 3, 'nsamples': rng.choice([30, 200]), 'seed': rng.randrange(10 ** 6), 'calls': calls,
                           'low': rng.choice([0, 0, 2 ** 30, -(2 ** 30) - 10, 2 ** 20])})       # value domains near the 32-bit range: sums of sources leave it
+        # beyond the model's selections (1-2 of the 3 sources): a combination over a source, another source and a DUPLICATE of the
+        # first (two identical vectors in one selection), for every combination function
+        for kind_x in ('xor', 'and', 'or', 'linear'):
+            for rep_x in range(2):
+                cases.append(([{'op': 'duplicate', 'sel': (0,), 'cols': (3,)}, {'op': 'combine', 'sel': (0, 1, 3), 'cols': (4,)}], 5))
+                items.append({'nsource': 3, 'nsamples': 60, 'seed': rng.randrange(10 ** 6), 'low': rng.choice([0, 5]),
+                              'calls': [{'op': 'duplicate', 'sel': [0], 'as_list': True}, {'op': 'combine', 'sel': [0, 1, 3], 'kind': kind_x}]})
         got = PC.pipe_eval([{'op': 'gen_calls', 'items': items[i:i + 100]} for i in range(0, len(items), 100)], modules=['gen_ops'])
         flat = []
         for r in got:
